@@ -619,6 +619,25 @@ impl Sim {
                     } else if *reason == "bid_fee_unpayable" {
                         // C03 does not forbid the match; but no settlement of it can satisfy C02/C17
                         props = vec!["C02", "C17"];
+                    } else if *reason == "ask_fee_unpayable" {
+                        props = vec!["C02", "C09"];
+                    }
+                    if matches!(kind, "cancel_ask" | "expire_ask" | "reject_ask") {
+                        // a reversal that should not have happened and paid a recorded approver
+                        // contradicts "returns to the approver exactly the unconsumed part" (C08)
+                        if let Outcome::Accepted(acc) = &res.outcome {
+                            let approvers: Vec<&String> = book_pre
+                                .asks
+                                .values()
+                                .filter_map(|a| match &a.class {
+                                    AskClass::Ready { approver, .. } => Some(approver),
+                                    _ => None,
+                                })
+                                .collect();
+                            if acc.xfers.iter().any(|x| approvers.contains(&&x.to)) && !props.contains(&"C08") {
+                                props.push("C08");
+                            }
+                        }
                     }
                     self.flag(
                         &props,
@@ -654,6 +673,10 @@ impl Sim {
                             };
                             if r.text().contains("Total (price * size) must be an integer") {
                                 props.push("C13");
+                            }
+                            if kind == "create_bid" && r.text().contains("Fee size") {
+                                // a correctly computed fee was refused: the fee demanded at entry is wrong
+                                props.push("C09");
                             }
                             let q = refusal_qual(r);
                             self.flag(
@@ -802,7 +825,8 @@ impl Sim {
                     (AttrExp::Exact(w), Some(g)) => w == g,
                     (AttrExp::Numeric(w), Some(g)) => match (dec::parse(w), dec::parse(g)) {
                         (Parsed::Ok(a), Parsed::Ok(b)) => a.eq_val(&b),
-                        _ => false,
+                        // a spelling the model does not read: judge the strings
+                        _ => w == g,
                     },
                     (_, None) => false,
                 };
@@ -1203,6 +1227,15 @@ impl Sim {
             }
         }
         if kind == "modify_contract" {
+            if self.cfg.executors.is_empty() || (self.cfg.approvers.is_empty() && !cfg_pre.approvers.is_empty()) {
+                self.flag(
+                    &["C12"],
+                    "C12.role_list_emptied",
+                    kind,
+                    if self.cfg.executors.is_empty() { "executors" } else { "approvers" },
+                    format!("a configuration change left a role list empty: executors {:?}, approvers {:?}", self.cfg.executors, self.cfg.approvers),
+                );
+            }
             // market parameters and version never change through execute
             let a = cfg_pre;
             let b = &self.cfg;
